@@ -144,7 +144,7 @@ def mutate_attr(
         # Abort if class is frozen.
         if (
             not (force or getattr(obj, "__spec_class_initializing__", False))
-            and inplace
+            and (inplace or metadata.do_not_copy)  # `do_not_copy` classes mutate in place
             and obj.__spec_class__.frozen
         ):
             raise FrozenInstanceError(
